@@ -356,7 +356,8 @@ pub fn run(args: &Args) {
             0 | 1 => Script { stop_after: Some(target), drop_after: None, upload_limit: 100_000, upload_rate: 70, fault_rate: 6, max_faults: 1_000, burst_max: 3, lockstep: false },
             2 => Script { stop_after: None, drop_after: Some(rng.below(target)), upload_limit: 100_000, upload_rate: 80, fault_rate: 3, max_faults: 1_000, burst_max: 3, lockstep: false },
             3 => Script { stop_after: None, drop_after: None, upload_limit: rng.below(target), upload_rate: 90, fault_rate: 0, max_faults: 0, burst_max: 3, lockstep: false },       // the uploader stops: retry budget runs out
-            _ => Script { stop_after: Some(rng.below(3)), drop_after: None, upload_limit: 100_000, upload_rate: 40, fault_rate: 12, max_faults: 1_000, burst_max: 3, lockstep: false },
+            // (the first of these has the stop signal pending before anything was delivered: only the initial chunk may follow)
+            _ => Script { stop_after: Some(if k == 4 { 0 } else { rng.below(3) }), drop_after: None, upload_limit: 100_000, upload_rate: 40, fault_rate: 12, max_faults: 1_000, burst_max: 3, lockstep: false },
         };
         let (start, full) = if k == 7 { ((0, 0), 0) } else { ((start_vol, start_seq), full) };
         progress(|| format!("poll_chunks session {k} starting at {:?}", start));
